@@ -201,7 +201,7 @@ class C15(Prop):
         r = gen.sub(seed, "ops")
         ops = []
         for j in range(r.randint(1, 4)):
-            shape = r.choice([[1], [2], [3], [4], [6], [8], [12], [2, 2], [3, 2], [2, 3, 2]])
+            shape = r.choice([[], [1], [2], [3], [4], [6], [8], [12], [2, 2], [3, 2], [2, 3, 2]])       # [] = 0-d scalar unknown
             n = int(np.prod(shape))
             kind = r.choice(["quad", "quad", "fixedpoint", "fixedpoint", "exp", "double", "noroot", "linsing"])
             desc = {"kind": kind, "shape": shape, "A": [gen.rnd(r, -1, 1, 3) for _ in range(n * n)], "a": [gen.rnd(r, 0.2, 4.0, 3) for _ in range(n)],
